@@ -134,6 +134,31 @@ def rule_channel(ctx):
                     priv.append("%s.%s: %s" % (an.rsplit("::", 1)[1], fl["name"], ty[:60]))
     ctx.ob(R, "no private queue", not priv, "Sender / Receiver / Shared hold no collection besides the watched queue" if not priv else
            "an end of the channel keeps messages in a collection of its own (%s): they are pending but invisible to the selection function, so a newer vote cannot supersede them" % priv[:2])
+    # the whole keep / discard-old / discard-new decision is taken inside ONE critical section: every evaluation of the
+    # selection function against pending values happens in the closure handed to send_modify (or below it). A pre-check
+    # under the shared borrow() lets two concurrent senders of the same (sender, kind) both pass and both be queued.
+    modcl = set()
+    for c in T.calls():
+        if c["q"].endswith("::send_modify") or c["q"].endswith("::send_if_modified"):
+            modcl.update(x[1] for x in T.args_of(c) if x[0] == "closure")
+    outside = []
+    nsel = 0
+    for g in [send] + common.family(ctx, send, ("closure",)):
+        Tg = ctx.T(g)
+        if not any(blk["t"]["k"] == "call" and any(y[0] == "field" and y[2] == "selection_function" for y in subterms(Tg.call_term(blk["t"]))) for blk in g.blocks):
+            continue
+        nsel += 1
+        h, inside = g, False
+        while h is not None:
+            if h.qname in modcl:
+                inside = True
+                break
+            h = h.parent
+        if not inside:
+            outside.append(g)
+    if nsel:
+        ctx.ob(R, "selection decided inside the critical section", not outside, "every call of the selection function sits in the closure run by send_modify" if not outside else
+               "the selection function is evaluated against the pending queue outside the send_modify critical section (%s): the outcome is acted on after the lock was released, so concurrent senders of the same (sender, kind) can both be queued and a stale vote can stay pending" % outside[0].qname.split("::", 2)[-1], outside[0].loc() if outside else send.loc())
     kids = [g for g in ctx.F.fns if g.parent is send]
     outer = [g for g in kids if any(c["q"].endswith("VecDeque::retain") for c in ctx.T(g).calls())]
     if not outer:
